@@ -305,7 +305,11 @@ func (m *sortedModel) compare(r *simkit.Run, got []byte, target int, ctxClass, w
 	if len(got) != len(want) {
 		detail += fmt.Sprintf(" file has %d bytes, want %d;", len(got), len(want))
 	}
-	r.Violate(class, fmt.Sprintf("%s/entry-size=%d/%s", what, entrySize, pos),
+	vkey := fmt.Sprintf("%s/entry-size=%d/%s", what, entrySize, pos)
+	if what == "journal-records-misaligned-after-torn-tail" {
+		vkey = what // recorded root cause; which entry the garbage key happens to hit is chance
+	}
+	r.Violate(class, vkey,
 		"%s: sorted index differs from the model in %d entries (delete aimed at entry %d of %d, its size field holds the tombstone: %v, %d other bytes changed):%s first differing byte %d",
 		what, len(changed), target, len(m.ents), targetMarked, others, detail, firstDiff(got, want))
 	return false
@@ -323,6 +327,7 @@ type c07 struct {
 	jdeleted  map[uint64]bool // the needles already marked in jbase
 	unjournal map[uint64]bool // marked by a crashed delete, not in the journal
 	tornTail  bool            // the journal holds a partial key from a crash
+	tornAt    int64           // journal length right after the first such crash
 	ndel      int
 	ntmp      int
 }
@@ -496,7 +501,11 @@ func (c *c07) lookupOne(i int, ctxClass, what string) bool {
 			if class == "" {
 				class = "delete-not-visible"
 			}
-			r.Violate(class, fmt.Sprintf("%s/entry-size=%d/%s", what, entrySize, pos), "%s: deleted key %d (entry %d of %d) still reads live: offset %d size %d", what, e.Key, i, len(c.m.ents), off.ToActualOffset(), size)
+			vkey := fmt.Sprintf("%s/entry-size=%d/%s", what, entrySize, pos)
+			if what == "journal-records-misaligned-after-torn-tail" {
+				vkey = what // recorded root cause; which entry the garbage key happens to hit is chance
+			}
+			r.Violate(class, vkey, "%s: deleted key %d (entry %d of %d) still reads live: offset %d size %d", what, e.Key, i, len(c.m.ents), off.ToActualOffset(), size)
 			return false
 		}
 		return true
@@ -506,7 +515,11 @@ func (c *c07) lookupOne(i int, ctxClass, what string) bool {
 		if class == "" {
 			class = "other-needle-changed"
 		}
-		r.Violate(class, fmt.Sprintf("%s/entry-size=%d/%s", what, entrySize, pos), "%s: live key %d (entry %d of %d) reads offset %d size %d, the index had %v", what, e.Key, i, len(c.m.ents), off.ToActualOffset(), size, e)
+		vkey := fmt.Sprintf("%s/entry-size=%d/%s", what, entrySize, pos)
+		if what == "journal-records-misaligned-after-torn-tail" {
+			vkey = what // recorded root cause; which entry the garbage key happens to hit is chance
+		}
+		r.Violate(class, vkey, "%s: live key %d (entry %d of %d) reads offset %d size %d, the index had %v", what, e.Key, i, len(c.m.ents), off.ToActualOffset(), size, e)
 		return false
 	}
 	return true
@@ -519,6 +532,16 @@ func (c *c07) verifyFile(target int, ctxClass, what string) bool {
 		return false
 	}
 	return c.m.compare(c.r, got, target, ctxClass, what)
+}
+
+// misaligned reports the recorded root cause: records were appended to the journal behind a
+// partial record left by a crash, so every 8-byte reader sees garbage keys from there on.
+func (c *c07) misaligned() bool {
+	if !c.tornTail {
+		return false
+	}
+	fi, err := os.Stat(c.base + ".ecj")
+	return err == nil && fi.Size() > c.tornAt
 }
 
 func (c *c07) verifyJournal(what string) bool {
@@ -689,6 +712,9 @@ func (c *c07) crash(s *simkit.Step) {
 		if !was && !c.inJournal(key) {
 			c.unjournal[key] = true
 		}
+		if !c.tornTail {
+			c.tornAt = int64(len(ecj0) + t)
+		}
 		c.tornTail = true
 	default:
 		name = "crash-after-journal"
@@ -717,6 +743,7 @@ func (c *c07) rebuild() {
 	r := c.r
 	c.ev.Close()
 	c.ev = nil
+	wasMisaligned := c.misaligned()
 	err := ec.RebuildEcxFile(c.base)
 	r.Probe("rebuild-ecx")
 	r.NonTrivial()
@@ -729,11 +756,15 @@ func (c *c07) rebuild() {
 		r.Violate("rebuilt-index-differs", "journal-not-removed", "RebuildEcxFile left the journal in place")
 		return
 	}
+	what := "rebuild-ecx"
+	if wasMisaligned {
+		what = "journal-records-misaligned-after-torn-tail"
+	}
 	c.journal, c.tornTail, c.unjournal = nil, false, map[uint64]bool{}
 	if !c.open() {
 		return
 	}
-	if c.verifyAll("rebuilt-index-differs", "rebuild-ecx") {
+	if c.verifyAll("rebuilt-index-differs", what) {
 		c.jbase = c.m.expect()
 		c.jdeleted = map[uint64]bool{}
 		for k, d := range c.m.deleted {
@@ -776,7 +807,9 @@ func (c *c07) fresh() {
 		}
 	}
 	tag := "rebuild-from-unmarked-index-plus-journal"
-	if c.tornTail {
+	if c.misaligned() {
+		tag = "journal-records-misaligned-after-torn-tail"
+	} else if c.tornTail {
 		tag += "/journal-has-torn-tail"
 	}
 	want.compare(r, got, -1, "rebuilt-index-differs", tag)
@@ -990,7 +1023,11 @@ func (x *sdxRun) getOne(i int, ctxClass, what string) bool {
 			if class == "" {
 				class = "delete-not-visible"
 			}
-			r.Violate(class, fmt.Sprintf("%s/entry-size=%d/%s", what, entrySize, pos), "%s: deleted key %d (entry %d of %d) still reads live: offset %d size %d", what, e.Key, i, len(x.m.ents), nv.Offset.ToActualOffset(), nv.Size)
+			vkey := fmt.Sprintf("%s/entry-size=%d/%s", what, entrySize, pos)
+			if what == "journal-records-misaligned-after-torn-tail" {
+				vkey = what // recorded root cause; which entry the garbage key happens to hit is chance
+			}
+			r.Violate(class, vkey, "%s: deleted key %d (entry %d of %d) still reads live: offset %d size %d", what, e.Key, i, len(x.m.ents), nv.Offset.ToActualOffset(), nv.Size)
 			return false
 		}
 		return true
@@ -1000,7 +1037,11 @@ func (x *sdxRun) getOne(i int, ctxClass, what string) bool {
 		if class == "" {
 			class = "other-needle-changed"
 		}
-		r.Violate(class, fmt.Sprintf("%s/entry-size=%d/%s", what, entrySize, pos), "%s: live key %d (entry %d of %d) reads ok=%v offset %d size %d, the index had %v", what, e.Key, i, len(x.m.ents), ok, nv.Offset.ToActualOffset(), nv.Size, e)
+		vkey := fmt.Sprintf("%s/entry-size=%d/%s", what, entrySize, pos)
+		if what == "journal-records-misaligned-after-torn-tail" {
+			vkey = what // recorded root cause; which entry the garbage key happens to hit is chance
+		}
+		r.Violate(class, vkey, "%s: live key %d (entry %d of %d) reads ok=%v offset %d size %d, the index had %v", what, e.Key, i, len(x.m.ents), ok, nv.Offset.ToActualOffset(), nv.Size, e)
 		return false
 	}
 	return true
